@@ -71,9 +71,10 @@ class EngineB:
         else:
             h.verdict = 'ERROR'
         h.failed_checks = list(dict.fromkeys(re.findall(r'Failed Checks: (.*)', out)))
-        m = re.search(r'\*\* (\d+) of (\d+) cover properties satisfied', out)
+        m = re.search(r'\*\* (\d+) of (\d+) cover properties satisfied(?: \((\d+) unreachable\))?', out)
         if m:
-            h.cover_ok, h.cover_total = int(m.group(1)), int(m.group(2))
+            # covers in branches that are dead by construction (constant harness flags) are reported "unreachable": not counted
+            h.cover_ok, h.cover_total = int(m.group(1)), int(m.group(2)) - int(m.group(3) or 0)
         m = re.search(r'Verification Time: ([\d.]+)s', out)
         h.cbmc_secs = float(m.group(1)) if m else None
 
